@@ -40,7 +40,8 @@ ASSUMPTIONS = [
     "a call that sends more than 64 commands to a target that keeps answering the same is counted as not terminating (today every facade call sends one)",
     "retained memory: bytes allocated at source lines of /repo/pyscsi and still alive (tracemalloc snapshot after gc.collect()) may grow by at most 256 KiB over 40 polls with different answers",
 ]
-REQUIRED_PROBES = ["corrupt_datain", "sense_payload", "zero_length_field", "direct_decode", "decoder_raised", "res_page", "sticky_target_answer", "retention_measured"]
+ALSO_OPTIMIZED = True      # repeated under `python -O`: a termination guard written as an assert vanishes there
+REQUIRED_PROBES = ["facade_without_blocksize", "corrupt_datain", "sense_payload", "zero_length_field", "direct_decode", "decoder_raised", "res_page", "sticky_target_answer", "retention_measured"]
 
 MAX_COMMANDS_PER_CALL = 64       # no facade call of the library needs more than one command today; retries must be bounded
 RETENTION_POLLS, RETENTION_BOUND = 40, 256 << 10
@@ -78,8 +79,14 @@ def setup(repo):
     PREFIX = os.path.join(os.path.realpath(repo), "pyscsi") + os.sep
 
 
-def gen_corruption(rng, method):
+# VPD pages with descriptor lists: offsets of the first descriptor's type / length bytes in this simulator's well-formed pages
+VPD_FIELDS = {0x83: [(5, 1), (7, 1), (5, 1), (3, 1), (2, 2), (4, 1)], 0x86: [(3, 1), (2, 2)], 0xB0: [(3, 1), (2, 2)], 0x89: [(3, 1), (2, 2)]}
+
+
+def gen_corruption(rng, method, page=None):
     fields = DATAIN[method][1]
+    if page in VPD_FIELDS and rng.random() < 0.7:
+        fields = VPD_FIELDS[page]
     r = rng.random()
     if r < 0.45 and fields:
         n = rng.choice([1, 1, 1, 2, 3])
@@ -149,7 +156,7 @@ def generate(rng, idx, tier):
             ops.append(op)
             continue
         if r < 0.75:
-            op["fault"] = gen_corruption(rng, m)
+            op["fault"] = gen_corruption(rng, m, op["kw"].get("page_code") if op["kw"].get("evpd") else None)
         elif r < 0.9:
             from props.c08 import gen_payload
             op["fault"] = {"kind": "sense_payload", "sense": gen_payload(rng).hex()}
@@ -157,10 +164,25 @@ def generate(rng, idx, tier):
             op["fault"] = None
         op["direct_cuts"] = sorted(set(rng.choice([0, 1, 2, 3, 4, 7, 8, 9, 11, 12, 16, 17, 24, 40, 64]) for _ in range(rng.randrange(0, 4))))
         ops.append(op)
+    no_bs = rng.random() < 0.15
+    if no_bs and kind == F.BLOCK:
+        # an application that learns the geometry from the device first: READ CAPACITY (answer corrupted), then a read
+        rc = rng.choice(["readcapacity10", "readcapacity16"])
+        op1 = gen_call(rng, rc, cfg)
+        off = 4 if rc.endswith("10") else 8
+        op1["fault"] = rng.choice([{"kind": "corrupt_datain", "mode": "fields", "fields": [[off, 4, rng.choice([0xFFFFFFF0, 0x7FFFFFFF, 0x10000000, 0xFFFFFFFF])]]},
+                                   {"kind": "corrupt_datain", "mode": "fill", "byte": 0xFF}])
+        op1["direct_cuts"] = []
+        op2 = gen_call(rng, "read10", cfg)
+        op2["fault"], op2["direct_cuts"] = None, []
+        ops = [op1, op2] + ops[:2]
     mem = rng.random() < 0.1
     return {"property": ID, "config": {"lu": cfg, "transport": rng.choice(["sgio", "iscsi"]), "mem": mem,
                                        # in allocation-traced runs: poll one command 40 times with ever different answers and see what the library keeps
-                                       "retention": mem and rng.random() < 0.5}, "ops": ops}
+                                       "retention": mem and rng.random() < 0.5,
+                                       "retention_failing": rng.random() < 0.5,      # ... the polled command fails (CHECK CONDITION with ever different sense)
+                                       # the application gave the facade no block size (its default): what a device claims must not become an allocation
+                                       "no_blocksize": no_bs}, "ops": ops}
 
 
 def enumerated_count(tier):
@@ -189,7 +211,11 @@ def execute(prog):
     cfg = prog["config"]["lu"]
     lu = worlds.make_lu(cfg, ident=5)
     dev = worlds.open_device(prog["config"]["transport"], lu)
-    scsi = SCSI(dev, blocksize=cfg["bs"])
+    if prog["config"].get("no_blocksize"):
+        scsi = SCSI(dev)
+        WORLD.probe("facade_without_blocksize")
+    else:
+        scsi = SCSI(dev, blocksize=cfg["bs"])
     if cfg["kind"] == F.BLOCK:
         scsi.persistentreserveout(0, service_action_reservation_key=0xABCDEF0123)
         scsi.persistentreserveout(1, reservation_key=0xABCDEF0123, pr_type=3)
@@ -322,7 +348,10 @@ def execute(prog):
 
         def poll(k):
             WORLD.armed.clear()
-            WORLD.arm({"kind": "corrupt_datain", "mode": "set", "bytes": [[8 + (k % 5), (k * 37 + 11) & 0xFF], [3, k & 0xFF], [14, (k >> 3) & 0xFF]]})
+            if prog["config"].get("retention_failing"):
+                WORLD.arm({"kind": "sense_payload", "sense": S.fixed(3, 0x11, k & 0xFF, info=k * 7919, length=18 + (k % 3) * 8).hex()})
+            else:
+                WORLD.arm({"kind": "corrupt_datain", "mode": "set", "bytes": [[8 + (k % 5), (k * 37 + 11) & 0xFF], [3, k & 0xFF], [14, (k >> 3) & 0xFF]]})
             del handed[:]
             del WORLD.deliveries[:]      # the harness's own references to the library's buffers
             del lu.log[:]
